@@ -1,7 +1,7 @@
 CONSTANTS
-Mode = "opcodes"
-MaxItems = 2
-Vals = {0, 1, 127, 128, 255, 256, 16383, 16384, 2097151, 2097152, 268435455, 268435456, 2147483647}
+Mode = "operands"
+MaxItems = 3
+Vals = {0, 127, 128, 16384, 268435456}
 Pads = {1}
 MaxPads = 0
 MaxLabels = 0
